@@ -163,17 +163,138 @@ def check(ctx):
 RENDERER_FILES = ("naunet/templateloader.py", "naunet/patches.py")
 
 
-def stateless_renderer(ctx, pkg, rule):
-    """What a rendering writes is a function of the network handed to THAT call: outside __init__ no method of TemplateLoader or of a
-    patch class stores or mutates an attribute of the renderer (a memo of prepared contents, of species positions, of the last network).
-    Such state makes the second rendering through the same loader depend on the first."""
-    from .c14 import _self_writes
-    n = 0
-    for ci in sorted(pkg.classes.values(), key=lambda c: c.name):
-        if ci.file not in RENDERER_FILES or "." in ci.name:
+CONSTRUCTION = ("__init__", "__post_init__", "__new__", "__init_subclass__", "__set_name__")
+
+
+def _renderer_classes(pkg):
+    """(renderers, helpers): the top-level classes of the renderer modules, split by role.  A RENDERER is a class whose instances
+    are handed to the rest of the package and rendered through: other modules refer to it by name, or a module-level function of
+    the renderer modules that other modules call returns one (a factory), or -- nobody building it inside the renderer modules --
+    it offers a rendering entry point (a method whose name says render); base and derived classes of a renderer are renderers.
+    Everything else defined there -- accumulators, tables, record types built inside the rendering code -- is a HELPER."""
+    cands = [ci for ci in sorted(pkg.classes.values(), key=lambda c: c.name) if ci.file in RENDERER_FILES and "." not in ci.name]
+    names = {ci.name for ci in cands}
+    outside = set()
+    for f, mod in pkg.modules.items():
+        if f in RENDERER_FILES:
             continue
+        for n in ast.walk(mod):
+            if isinstance(n, ast.Name):
+                outside.add(n.id)
+            elif isinstance(n, ast.Attribute):
+                outside.add(n.attr)
+            elif isinstance(n, ast.alias):
+                outside.add(n.name.split(".")[-1])
+    handed_out, built_inside = set(), set()
+    for f in RENDERER_FILES:
+        mod = pkg.modules.get(f)
+        if mod is None:
+            continue
+        for st in mod.body:
+            if isinstance(st, ast.FunctionDef) and st.name in outside:
+                for r in ast.walk(st):
+                    if isinstance(r, ast.Return) and r.value is not None:
+                        handed_out |= {x.id for x in ast.walk(r.value) if isinstance(x, ast.Name) and x.id in names}
+            elif not isinstance(st, (ast.FunctionDef, ast.AsyncFunctionDef, ast.ClassDef)):
+                # a module-level table of classes (a registry the factory looks the class up in)
+                handed_out |= {x.id for x in ast.walk(st) if isinstance(x, ast.Name) and isinstance(x.ctx, ast.Load) and x.id in names
+                               and not any(isinstance(c, ast.Call) and c.func is x for c in ast.walk(st))}
+        for c in ast.walk(mod):
+            if isinstance(c, ast.Call) and isinstance(c.func, ast.Name) and c.func.id in names:
+                built_inside.add(c.func.id)
+    is_r = set()
+    for ci in cands:
+        meths = {m for m, fn in ci.methods.items() if isinstance(fn, ast.FunctionDef)}
+        if (ci.name in outside and any(m not in CONSTRUCTION for m in meths)) or ci.name in handed_out \
+                or (any("render" in m.lower() for m in meths) and ci.name not in built_inside):
+            is_r.add(ci.name)
+    # relatives of a renderer
+    changed = True
+    while changed:
+        changed = False
+        for ci in cands:
+            if ci.name not in is_r and any((c in is_r and c in names) for c in pkg.mro(ci.name)[1:]):
+                is_r.add(ci.name)
+                changed = True
+            if ci.name in is_r:
+                for c in pkg.mro(ci.name)[1:]:
+                    if c in names and c not in is_r:
+                        is_r.add(c)
+                        changed = True
+    return [ci for ci in cands if ci.name in is_r], [ci for ci in cands if ci.name not in is_r]
+
+
+def _kept_instances(pkg, names):
+    """{helper class name: (file, line, where)} for helper instances that outlive one rendering call: built at module or class
+    level, or stored into an attribute of an object (`self.x = Helper()`, also inside a display / call argument of such a store).
+    An instance bound to a local of the call that builds it is dropped with the call."""
+    kept = {}
+    for f in RENDERER_FILES:
+        mod = pkg.modules.get(f)
+        if mod is None:
+            continue
+
+        def builds(node):
+            return [c.func.id for c in ast.walk(node) if isinstance(c, ast.Call) and isinstance(c.func, ast.Name) and c.func.id in names]
+
+        def scan(stmts, in_func):
+            for st in stmts:
+                if isinstance(st, (ast.FunctionDef, ast.AsyncFunctionDef)):
+                    # defaults are evaluated once, at definition time
+                    for d in st.args.defaults + [d for d in st.args.kw_defaults if d is not None]:
+                        for h in builds(d):
+                            kept.setdefault(h, (f, st.lineno, f"a default argument of `{st.name}`"))
+                    scan(st.body, True)
+                    continue
+                if isinstance(st, ast.ClassDef):
+                    scan(st.body, False)
+                    continue
+                if not in_func:
+                    for h in builds(st):
+                        kept.setdefault(h, (f, st.lineno, "module / class level"))
+                    continue
+                for n in ast.walk(st):
+                    tg = n.targets if isinstance(n, ast.Assign) else [n.target] if isinstance(n, (ast.AugAssign, ast.AnnAssign)) and n.value is not None else []
+                    if any(isinstance(_base(e), ast.Attribute) for t in tg for e in (t.elts if isinstance(t, (ast.Tuple, ast.List)) else [t])):
+                        for h in builds(n.value):
+                            kept.setdefault(h, (f, n.lineno, f"`{ast.unparse(tg[0])}`"))
+                    if isinstance(n, ast.Call) and isinstance(n.func, ast.Attribute) and n.func.attr in MUTATORS | {"add", "append"} and isinstance(n.func.value, ast.Attribute):
+                        for a in n.args:
+                            for h in builds(a):
+                                kept.setdefault(h, (f, n.lineno, f"`{ast.unparse(n.func.value)}`"))
+        scan(mod.body, False)
+        # a module-level name re-bound from inside a function (`global _TABLE; _TABLE = Helper()`)
+        for fn in ast.walk(mod):
+            if isinstance(fn, (ast.FunctionDef, ast.AsyncFunctionDef)):
+                gl = {x for n in ast.walk(fn) if isinstance(n, ast.Global) for x in n.names}
+                for n in ast.walk(fn):
+                    if gl and isinstance(n, ast.Assign) and any(isinstance(t, ast.Name) and t.id in gl for t in n.targets):
+                        for c in ast.walk(n.value):
+                            if isinstance(c, ast.Call) and isinstance(c.func, ast.Name) and c.func.id in names:
+                                kept.setdefault(c.func.id, (f, n.lineno, "a module global"))
+    return kept
+
+
+def _base(e):
+    while isinstance(e, ast.Subscript):
+        e = e.value
+    return e
+
+
+def stateless_renderer(ctx, pkg, rule):
+    """What a rendering writes is a function of the network handed to THAT call: outside construction no method of a RENDERER
+    (TemplateLoader, the patch classes: the classes of the renderer modules with a rendering entry point, or that other modules
+    build) stores or mutates an attribute of the renderer (a memo of prepared contents, of species positions, of the last network).
+    Such state makes the second rendering through the same loader depend on the first.  A HELPER class of those modules (an
+    accumulator, a table, a record type) may keep state in its instances -- that is what it is for -- as long as no instance
+    outlives the rendering call that built it: an instance kept at module / class level or in an attribute of another object
+    carries what one rendering put into it over to the next."""
+    from .c14 import _self_writes
+    renderers, helpers = _renderer_classes(pkg)
+    n = 0
+    for ci in renderers:
         for mname, fn in sorted(ci.methods.items()):
-            if mname == "__init__" or not isinstance(fn, ast.FunctionDef):
+            if mname in CONSTRUCTION or not isinstance(fn, ast.FunctionDef):
                 continue
             n += 1
             w = _self_writes(fn)
@@ -186,6 +307,28 @@ def stateless_renderer(ctx, pkg, rule):
             else:
                 ctx.ok(rule, key, (ci.file, fn.lineno), "writes no attribute of the renderer")
     ctx.floor(rule, "renderer methods", n, 6)
+    # helper classes whose methods change their own instance: harmless while every instance lives inside one rendering call
+    stateful = {}
+    for ci in helpers:
+        for mname, fn in sorted(ci.methods.items()):
+            if mname in CONSTRUCTION or not isinstance(fn, ast.FunctionDef):
+                continue
+            w = _self_writes(fn)
+            if w:
+                stateful.setdefault(ci.name, []).append((mname, sorted(w), min(w.values())))
+    kept = _kept_instances(pkg, set(stateful)) if stateful else {}
+    for ci in helpers:
+        if ci.name not in stateful:
+            continue
+        key = f"{ci.name}:instances live inside one rendering"
+        if ci.name in kept:
+            f, line, where = kept[ci.name]
+            m, attrs, _ = stateful[ci.name][0]
+            ctx.bad(rule, key, (f, line), f"an instance of the helper `{ci.name}` is kept in {where} and `{ci.name}.{m}` changes it (self.{attrs[0]}): what one rendering accumulated in it is still "
+                    "there for the next rendering through the same renderer", expected="the helper is built inside the rendering call that uses it (a local), or is never changed after construction",
+                    found=f"{where}; writers: " + ", ".join(f"{m_}({', '.join(a_)})" for m_, a_, _ in stateful[ci.name]))
+        else:
+            ctx.ok(rule, key, (ci.file, ci.node.lineno), "a helper whose instances are locals of the call that builds them: nothing survives the call")
 
 
 # ------------------------------------------------------------------ R6  who may READ the process-global tables
@@ -882,7 +1025,30 @@ def krome_reset(ctx, pkg, rule="R4"):
                   f"`{a}` is reset before every file" if a in reset else
                   f"`{a}` is changed by directive lines (preprocessing) but not reset in initialize(): directives of one file (also of a read that raised half-way) act on the next file")
     # Network calls initialize before reading, on every path
-    from ..valueflow import Flow, simp, norm_guard, show
+    from ..valueflow import Flow, simp, norm_guard, show, guards_satisfiable, _bool_atoms
+
+    def skipped_when(f, recv, scenario):
+        """The guards of the reset call `f` that can fail although something is about to be read: decided propositionally over
+        the atomic conditions -- the format class exists (`recv` truthy / not None, whichever way and wherever the test is written:
+        a guard clause that raises, a cached flag, a conjunction) and `scenario(atom) -> truth value | None` fixes the atoms that
+        describe the reading scenario (the argument is not a Reaction instance).  -> texts of the guards not implied."""
+        gs = [norm_guard((simp(g[0]), g[1])) for g in f.guards]
+        atoms = set()
+        for c, _ in gs:
+            _bool_atoms(c, atoms)
+        prem = []
+        for a in atoms:
+            if a == recv:
+                prem.append((a, True))
+            elif a[0] == "cmp" and a[1] in (("Is",), ("Eq",)) and a[2] == (recv, ("const", None)):
+                prem.append((a, False))
+            elif scenario(a) is not None:
+                prem.append((a, scenario(a)))
+        out = ["<loop>"] if f.loops else []
+        for c, pol in gs:
+            if guards_satisfiable(prem, [(c, not pol)]):
+                out.append(_guard_text([(c, pol)]))
+        return out
     net = pkg.cls("Network")
     for mname in ("add_reaction_from_file", "add_reaction"):
         fn = net.methods[mname]
@@ -907,15 +1073,8 @@ def krome_reset(ctx, pkg, rule="R4"):
                 ctx.check(hcall < min(reads_lines), rule, f"Network.{mname}:initialize before reading", (NF, fn.lineno), f"the helper `{h}` that initialises the format class is called before any line is parsed")
                 f = hinit[0]
                 recv = simp(f.value[1])
-                extra = ["<loop>"] if f.loops else []
-                for g in f.guards:
-                    c, pol = norm_guard((simp(g[0]), g[1]))
-                    if c == recv or (c[0] == "cmp" and c[1] in (("Is",), ("Eq",)) and c[2] == (recv, ("const", None))):
-                        continue
-                    # membership of the format NAME in the table of known formats is the same test as "the class exists"
-                    if c[0] == "cmp" and c[1] == ("In",) and c[2][1][0] == "global":
-                        continue
-                    extra.append(_guard_text([(c, pol)]))
+                # membership of the format NAME in the table of known formats is the same test as "the class exists"
+                extra = skipped_when(f, recv, lambda a: True if a[0] == "cmp" and a[1] == ("In",) and a[2][1][0] == "global" else None)
                 ctx.check(not extra, rule, f"Network.{mname}:initialize for every file", (NF, f.line),
                           "the reset depends on nothing but the existence of the format class" if not extra else
                           f"the per-file reset of the format class (in `{h}`) is skipped when `{extra[0]}` does not hold: directive state (@format, @common, @var) of the previous file "
@@ -928,25 +1087,9 @@ def krome_reset(ctx, pkg, rule="R4"):
             f = init_calls[0]
             recv = simp(f.value[1])
             rtxt = _src(recv)
-            extra = ["<loop>"] if f.loops else []
-            for g in f.guards:
-                c, pol = norm_guard((simp(g[0]), g[1]))
-                if c == recv:
-                    continue                      # the format class exists (whichever way the test is written)
-                if c[0] == "cmp" and c[1] in (("Is",), ("Eq",)) and c[2] == (recv, ("const", None)):
-                    continue
-                # a Reaction INSTANCE was parsed elsewhere: nothing is read here, nothing to reset
-                if c[0] == "call" and c[1] == ("global", "isinstance") and len(c[2]) == 2 and c[2][0][0] == "param" and c[2][1] == ("global", "Reaction"):
-                    continue
-                # any boolean combination of those two facts (guard clauses, De Morgan, a local flag `from_string = not isinstance(..)`):
-                # a condition that holds whenever a string is read and its format class exists skips no reset
-                from ..valueflow import guards_satisfiable, walk as _walk
-                isi = {x for x in _walk(c) if isinstance(x, tuple) and len(x) == 4 and x[0] == "call" and x[1] == ("global", "isinstance") and len(x[2]) == 2
-                       and x[2][0][0] == "param" and x[2][1] == ("global", "Reaction")}
-                assume = [(recv, True), (("cmp", ("Is",), (recv, ("const", None))), False), (("cmp", ("Eq",), (recv, ("const", None))), False)] + [(x, False) for x in isi]
-                if not guards_satisfiable(assume, [(c, not pol)]):
-                    continue
-                extra.append(_guard_text([(c, pol)]))
+            # a Reaction INSTANCE was parsed elsewhere: nothing is read here, nothing to reset
+            extra = skipped_when(f, recv, lambda a: False if a[0] == "call" and a[1] == ("global", "isinstance") and len(a[2]) == 2 and a[2][0][0] == "param"
+                                 and a[2][1] == ("global", "Reaction") else None)
             ctx.check(not extra, rule, f"Network.{mname}:initialize for every file", (NF, f.line),
                       "the reset depends on nothing but the existence of the format class" if not extra else
                       f"the per-file reset of the format class is skipped when `{extra[0]}` does not hold: directive state (@format, @common, @var) of the previous file decodes the next one",
@@ -1034,4 +1177,54 @@ BENIGN = [
         {"file": NF, "old": "        if rclass:\n            rclass.initialize()\n        else:\n            raise RuntimeError(f\"Unknown format: {format}\")\n\n        with open",
          "new": "        if rclass is None:\n            raise RuntimeError(f\"Unknown format: {format}\")\n        rclass.initialize()\n\n        with open"}]},
     {"name": "sorted-set-iteration", "file": NF, "old": "        source = self._reactants.difference(self._products)", "new": "        source = self._reactants.difference(self._products)\n        _names = [s.name for s in sorted(source)]"},
+]
+
+_ADD_INIT = ("        if not isinstance(reaction, Reaction):\n            # create reaction instance from string\n            # change some global settings or class attibutes if needed\n"
+             "            if rclass:\n                rclass.initialize()\n            else:\n                raise RuntimeError(f\"Unknown format: {format}\")")
+BENIGN += [
+    # the unknown-format error as a conjunction guard clause of its own, the isinstance test cached in a flag used for the reset
+    {"name": "initialize-after-conjunction-guard-clause", "file": NF, "old": _ADD_INIT,
+     "new": "        from_string = not isinstance(reaction, Reaction)\n        if from_string and not rclass:\n            raise RuntimeError(f\"Unknown format: {format}\")\n\n"
+            "        if from_string:\n            rclass.initialize()"},
+]
+MUTANTS += [
+    # the same spelling with the reset additionally tied to the network being empty
+    {"name": "initialize-after-guard-clause-only-when-empty", "file": NF, "old": _ADD_INIT,
+     "new": "        from_string = not isinstance(reaction, Reaction)\n        if from_string and not rclass:\n            raise RuntimeError(f\"Unknown format: {format}\")\n\n"
+            "        if from_string and not self.reaction_list:\n            rclass.initialize()", "rules": ["R4"]},
+]
+
+# ---- R7: helper classes of the renderer modules (accumulators, tables, record types) -------------------------------------------
+TL = "naunet/templateloader.py"
+_TL_CLS = "class TemplateLoader:\n"
+_TALLY = ("class _Tally:\n    \"\"\"counts what a rendering emits\"\"\"\n\n    def __init__(self) -> None:\n        self.n = 0\n        self.names = []\n\n"
+          "    def note(self, name: str) -> None:\n        self.n += 1\n        self.names.append(name)\n\n\n")
+_RENDER_HEAD = "        templates = templates or self.templates\n        solver = self._solver\n"
+BENIGN += [
+    {"name": "helper-accumulator-local-to-render", "edits": [
+        {"file": TL, "old": _TL_CLS, "new": _TALLY + _TL_CLS},
+        {"file": TL, "old": _RENDER_HEAD, "new": _RENDER_HEAD + "        tally = _Tally()\n        tally.note(proj_name)\n"}]},
+    {"name": "record-type-with-derived-property", "file": TL, "old": _TL_CLS,
+     "new": "from typing import NamedTuple\n\n\nclass _Row(NamedTuple):\n    row: int\n    col: int\n\n    def flat(self, n: int) -> int:\n        return self.row * n + self.col\n\n\n" + _TL_CLS},
+]
+MUTANTS += [
+    {"name": "helper-accumulator-kept-in-the-loader", "edits": [
+        {"file": TL, "old": _TL_CLS, "new": _TALLY + _TL_CLS},
+        {"file": TL, "old": "        self._solver = solver\n", "new": "        self._solver = solver\n        self._tally = _Tally()\n"},
+        {"file": TL, "old": _RENDER_HEAD, "new": _RENDER_HEAD + "        self._tally.note(proj_name)\n"}], "rules": ["R7"]},
+    {"name": "helper-accumulator-at-module-level", "edits": [
+        {"file": TL, "old": _TL_CLS, "new": _TALLY + "_TALLY = _Tally()\n\n\n" + _TL_CLS},
+        {"file": TL, "old": _RENDER_HEAD, "new": _RENDER_HEAD + "        _TALLY.note(proj_name)\n"}], "rules": ["R7"]},
+    {"name": "loader-remembers-last-network", "file": TL, "old": _RENDER_HEAD, "new": _RENDER_HEAD + "        self._last_network = network\n", "rules": ["R7"]},
+]
+_LINES = ("class _Lines:\n    def __init__(self) -> None:\n        self.rows = []\n\n    def render_row(self, text: str) -> None:\n        self.rows.append(text)\n\n\n")
+BENIGN += [
+    # a helper built inside the rendering code stays a helper even if one of its methods is called render-something
+    {"name": "local-helper-with-render-named-method", "edits": [
+        {"file": TL, "old": _TL_CLS, "new": _LINES + _TL_CLS},
+        {"file": TL, "old": _RENDER_HEAD, "new": _RENDER_HEAD + "        lines = _Lines()\n        lines.render_row(proj_name)\n"}]},
+]
+MUTANTS += [
+    {"name": "patch-remembers-rendered-info", "file": "naunet/patches.py", "old": "    def _render_derived_field(self, info: NetworkInfo, path: Path | str = \"./\") -> None:\n",
+     "new": "    def _render_derived_field(self, info: NetworkInfo, path: Path | str = \"./\") -> None:\n        self._info = info\n", "rules": ["R7"]},
 ]
